@@ -153,7 +153,7 @@ func (g *Gate) Arrived(timeout time.Duration) bool {
 // Release lets the blocked goroutine continue (and opens the gate for good).
 func (g *Gate) Release() { g.once.Do(func() { close(g.release) }) }
 
-var unlocked = map[string]bool{"begin.wait": true, "begin.woke": true, "session.start": true, "session.begun": true, "session.locked": true, "close.done": true}
+var unlocked = map[string]bool{"begin.wait": true, "begin.woke": true, "session.start": true, "session.begun": true, "session.locked": true, "close.done": true, "use.committed": true}
 
 func (s *Sched) catID(c *lungo.Catalog) int {
 	if c == nil {
